@@ -250,7 +250,12 @@ func (t *basicTaskBase) ensureBasicTaskKilled() (err error) {
 	if t.Tci.ControlMode == controlmode.HOOK {
 		return nil
 	}
-	if t.taskCmd.ProcessState.Exited() {
+	if t.taskCmd.Process == nil {
+		// the command was never started, there is nothing to kill
+		return nil
+	}
+	// ProcessState is nil for as long as the child is running (it is set when Wait returns)
+	if t.taskCmd.ProcessState != nil && t.taskCmd.ProcessState.Exited() {
 		return nil
 	}
 
